@@ -140,3 +140,171 @@ def _run(key, args, kind, clause, raises, ensures, RAISED=None, CUSTOM=None):
                 violated = True
     print("REPRODUCED" if violated else "NOT-REPRODUCED")
     return 1 if violated else 0
+
+
+# ---------------------------------------------------------------------------------------------------------------
+# witness search for contracts stated with ghost parameters
+# ---------------------------------------------------------------------------------------------------------------
+_STR_POOL = ["", "x", "7", "12", "-", "Z", ":", ".", "+", " ", "T", "0", "a:b", "١"]
+_WS_POOL = ["", " ", "\n", "\t ", " \r\n"]
+
+
+def _sample_regex(rng, pat):
+    """Tiny sampler for the whitespace / character-class patterns used in ghost requirements."""
+    import re as _re
+
+    m = _re.fullmatch(r"\[(.+)\]([*+]?)", pat)
+    if not m:
+        return None
+    chars = list(m.group(1).encode().decode("unicode_escape"))
+    lo = 1 if m.group(2) == "+" else (0 if m.group(2) == "*" else 1)
+    hi = lo if m.group(2) == "" else 3
+    return "".join(rng.choice(chars) for _ in range(rng.randint(lo, hi)))
+
+
+def _bounds(requires, g):
+    import re as _re
+
+    lo = hi = None
+    for r in requires:
+        for m in _re.finditer(rf"(?<![\w.])(-?\d+) <= {g}(?![\w.])", r):
+            lo = int(m.group(1)) if lo is None else max(lo, int(m.group(1)))
+        for m in _re.finditer(rf"(?<![\w.]){g} <= (-?\d+)", r):
+            hi = int(m.group(1)) if hi is None else min(hi, int(m.group(1)))
+        for m in _re.finditer(rf"(?<![\w.]){g} < (-?\d+)", r):
+            hi = int(m.group(1)) - 1 if hi is None else min(hi, int(m.group(1)) - 1)
+    return lo, hi
+
+
+class _Blank:
+    pass
+
+
+def search(key, requires, ghost, params, raises, ensures, tries=400, seed=0, first=None):
+    """Sample the ghost parameters of a contract, derive the arguments from its defining pre-conditions
+    (``<param> == <expression over ghosts>``), keep the samples that satisfy every pre-condition natively, call
+    the real function and evaluate the contract.  Exit 1 + REPRODUCED on the first violating sample."""
+    try:
+        return _search(key, requires, ghost, params, raises, ensures, tries, seed, first)
+    except BaseException:
+        traceback.print_exc()
+        print("REPLAY-ERROR")
+        return 3
+
+
+def _search(key, requires, ghost, params, raises, ensures, tries, seed, first):
+    import random
+    import re as _re
+
+    import specs
+
+    rng = random.Random(seed)
+    fn_key = key.split("#")[0]
+    modname, qual = fn_key.split(":")
+    owner = _resolve(modname + ":" + qual.rsplit(".", 1)[0]) if "." in qual else None
+    fn = _resolve(fn_key)
+    satisfied = 0
+    for trial in range(tries):
+        env = {}
+        for g, sort in ghost.items():
+            if first and trial == 0 and g in first and not isinstance(first[g], dict):
+                env[g] = first[g]
+                continue
+            if sort == "int":
+                lo, hi = _bounds(requires, g)
+                lo = -3 if lo is None else lo
+                hi = (lo + 20) if hi is None else hi
+                env[g] = rng.choice([lo, hi, min(lo + 1, hi), rng.randint(lo, hi), rng.randint(lo, hi)])
+            elif sort == "str":
+                pat = None
+                for r in requires:
+                    m = _re.search(rf"matches\({g}, '((?:[^'\\]|\\.)*)'\)", r)
+                    if m:
+                        pat = m.group(1)
+                s = _sample_regex(rng, pat) if pat else None
+                env[g] = s if s is not None else rng.choice(_STR_POOL)
+            elif sort == "bool":
+                env[g] = rng.random() < 0.5
+            else:
+                env[g] = None
+        obj = None
+        if "self" in params:
+            obj = _Blank()
+            env["self"] = obj
+        # defining pre-conditions, in order: bind what is not bound yet (parameters, fields of self, ghost strings)
+        g = dict(vars(specs))
+        for _ in range(3):
+            for r in requires:
+                m = _re.fullmatch(r"\s*([A-Za-z_][\w.]*) == (.+)", r)
+                if not m:
+                    continue
+                lhs, rhs = m.group(1), m.group(2)
+                try:
+                    val = eval(rhs, g, env)
+                except Exception:
+                    continue
+                if lhs.startswith("self.") and obj is not None and lhs.count(".") == 1:
+                    if not hasattr(obj, lhs[5:]):
+                        setattr(obj, lhs[5:], val)
+                elif "." not in lhs and (lhs in params and lhs not in env or (ghost.get(lhs) == "str" and trial % 2 == 0)):
+                    env[lhs] = val
+        for name, spec in params.items():
+            if name not in env and not isinstance(spec, str):
+                env[name] = spec  # a literal argument of the variant (digits=2, max_digits=9, ...)
+        try:
+            ok = all(eval_clause(r, env, env) for r in requires)
+        except Exception:
+            ok = False
+        if not ok:
+            continue
+        satisfied += 1
+        call = {k: env[k] for k in params if k in env and k not in ("cls",)}
+        if any(k not in env for k in params if k != "cls"):
+            continue
+        if obj is not None:
+            real = owner.__new__(owner)
+            for k2, v2 in vars(obj).items():
+                try:
+                    setattr(real, k2, v2)
+                except Exception:
+                    pass
+            for k2 in ("fidx", "flen"):
+                if not hasattr(real, k2):
+                    setattr(real, k2, 0)
+            if not hasattr(real, "format"):
+                real.format = ""
+            call["self"] = real
+        pre = copy.deepcopy({**env, **call})
+        result, raised = None, None
+        try:
+            result = fn(**call)
+            if hasattr(result, "__next__"):
+                result = list(result)
+        except BaseException as e:  # noqa
+            raised = e
+        post = {**env, **call, "result": result}
+        bad = None
+        if raised is not None:
+            allowed = next((n for n in raises if any(c.__name__ == n for c in type(raised).__mro__)), None)
+            if allowed is None:
+                bad = f"raised {type(raised).__name__}({raised}), allowed only {sorted(raises)}"
+            elif raises[allowed] is not True and not eval_clause(raises[allowed], post, pre):
+                bad = f"raised {allowed} although its condition does not hold: {raises[allowed]}"
+        else:
+            for name, cl in ensures:
+                try:
+                    if not eval_clause(cl, post, pre):
+                        bad = f"ensures {name}: {cl}"
+                        break
+                except Exception:
+                    continue
+        if bad:
+            shown = {k: (vars(v) if hasattr(v, "__dict__") and not isinstance(v, type) else v) for k, v in call.items()}
+            print("witness:", key.split("#")[0], shown, "->", repr(result) if raised is None else f"raised {raised!r}")
+            print("ghosts :", {k: env[k] for k in ghost})
+            print("VIOLATED:", bad)
+            print("REPRODUCED")
+            return 1
+    print(f"{satisfied} samples satisfied the pre-condition; none violates the contract")
+    print("NOT-REPRODUCED")
+    return 0
